@@ -241,7 +241,7 @@ func main() {
 		"8 versions (ns-granular) x 3 hop lifetimes x 3 types x 4 hidden-path groups, " +
 		"expiry clean-ups, prefix deletions, next-query writes, and queries with random filter " +
 		"combinations; non-trivial = op on a non-empty store; distinct by op line within history"
-	nHist := e.N(300, 3000)
+	nHist := e.N(300, 2500)
 	if os.Getenv("VERIF_STORES_HIST") != "" {
 		fmt.Sscan(os.Getenv("VERIF_STORES_HIST"), &nHist)
 	}
